@@ -1,0 +1,36 @@
+//! Verification-only facade (compiled only with `--cfg libp2p_verif`).
+//!
+//! Lets a simulation harness build a *byzantine* noise endpoint: the real handshake code, but
+//! announcing an identity key / signature that does not belong to the static DH key it holds.
+//! Contains no logic of its own.
+
+use libp2p_identity as identity;
+use snow::types::Dh as _;
+
+use crate::Config;
+
+impl Config {
+    /// The identity key and the signature over the static DH key this config announces.
+    pub fn verif_announced_identity(&self) -> (identity::PublicKey, Vec<u8>) {
+        (
+            self.dh_keys.identity.public.clone(),
+            self.dh_keys.identity.signature.clone(),
+        )
+    }
+
+    /// The static DH public key this config holds.
+    pub fn verif_static_public(&self) -> Vec<u8> {
+        self.dh_keys.keypair.pubkey().to_vec()
+    }
+
+    /// Announce `public` / `signature` instead of the honest values.
+    pub fn verif_with_announced_identity(
+        mut self,
+        public: identity::PublicKey,
+        signature: Vec<u8>,
+    ) -> Self {
+        self.dh_keys.identity.public = public;
+        self.dh_keys.identity.signature = signature;
+        self
+    }
+}
